@@ -222,7 +222,7 @@ func NewView(rec *world.Rec) *View {
 	for _, k := range world.SortedKeys(rec.Before.Cache.Pods) {
 		p := rec.Before.Cache.Pods[k]
 		ord, ok := OrdinalOf(set.Name, p.Name)
-		if !ok || sel == nil || !sel.Matches(labels.Set(p.Labels)) {
+		if !ok || sel == nil || !sel.Matches(labels.Set(p.Labels)) || p.Namespace != set.Namespace {
 			continue
 		}
 		ref := controllerOf(p)
